@@ -7,10 +7,10 @@ CONSTANTS
   Ratios <- MC_Ratios
   InitBank = "3"
   MaxLen = 4
-  Defects = {"dao_self_transfer"}
-  Foreign = {}
-  BankAmts = {}
-INVARIANT MInv_Compensated
-PROPERTY MStep_Compensated
+  Defects = {}
+  Foreign = {"bank_send","bank_multisend"}
+  BankAmts = {"1","2"}
+INVARIANT MInv_P
+PROPERTY MStep_P
 VIEW View
 CHECK_DEADLOCK FALSE
